@@ -139,6 +139,32 @@ def r18b(ctx):
                     for k in c.keys + c.values:
                         if k is not None and self_attr(k):
                             bad.append(k)
+        # comprehensions over the node's children must convert each child
+        if not is_leaf:
+            for comp in walk_no_nested(f.node):
+                if isinstance(comp, (ast.ListComp, ast.GeneratorExp, ast.SetComp, ast.DictComp)):
+                    lv = {x.id for g in comp.generators for x in ast.walk(g.target) if isinstance(x, ast.Name)}
+                    def node_iter(it):
+                        if isinstance(it, ast.Name) and it.id == "self":
+                            return True
+                        if self_attr(it) == "_children":
+                            return True
+                        if isinstance(it, ast.Call) and isinstance(it.func, ast.Attribute) and it.func.attr in ("items", "children", "elements", "values") \
+                                and (dotted(it.func.value) in ("self", "self._children")):
+                            return True
+                        return False
+                    over_self = any(node_iter(g.iter) for g in comp.generators)
+                    if not over_self:
+                        continue
+                    elts = [comp.key, comp.value] if isinstance(comp, ast.DictComp) else [comp.elt]
+                    for e in elts:
+                        for nme in ast.walk(e):
+                            if isinstance(nme, ast.Name) and nme.id in lv:
+                                p_ = parent(nme)
+                                conv = isinstance(p_, ast.Attribute) and p_.attr == "to_obj"
+                                getat = isinstance(p_, ast.Call) and call_name(p_) == "getattr"
+                                if not conv and not getat and not isinstance(p_, ast.Subscript):
+                                    bad.append(nme)
         if bad:
             ctx.violation("R18b", f.file, f"{short}.to_obj", bad[0], f"{short}.to_obj returns nodes",
                           f"{short}.to_obj() returns `{norm(bad[0], 30)}` - a tree node, not its plain value: the Python "
